@@ -22,14 +22,18 @@ type corruptCase struct {
 	NMut int
 }
 
-var hostileNumbers = []string{"-1", "-0", "2147483647", "2147483648", "-2147483649", "9223372036854775807", "9223372036854775808", "18446744073709551616", "123456789012345678901234567890", "+5", "0x10", "1e3", "--3", "", "١٢"}
+var hostileNumbers = []string{"-9223372036854775808", "-9223372036854775807", "-9223372036854775809", "4294967295", "4294967296", "-4294967296", "-1", "-0", "2147483647", "2147483648", "-2147483649", "9223372036854775807", "9223372036854775808", "18446744073709551616", "123456789012345678901234567890", "+5", "0x10", "1e3", "--3", "", "١٢"}
 var hostileWords = []string{"\u212a", "\u0130", "\u212a\u212a\u212a\u212a;", "\u0130\u0130\u0130;c", "MOV.\u0130", "D\u0130V.F", "\u017f", "XYZ", "MOV", "MOV.", "MOV.Q", ".I", "DAT.F.F", "ORG", "END", "org", "end", "START", "LDP.A", "NOP.B", "MUL.X", "SEQ.I", "mov.i", ";", ",", "#", "$", "@", "<", ">", "*", "{", "}", "%", "\x00", "\r", "\xff", "\x1a", " ", " ", "\v", "\f"}
 
 // mutateText applies one corruption at token or byte level.
 func mutateText(t *rapid.T, text string, m int64) string {
 	lines := strings.Split(text, "\n")
 	pickLine := func() int { return rapid.IntRange(0, len(lines)-1).Draw(t, "line") }
-	switch rapid.IntRange(0, 15).Draw(t, "mut") {
+	mk := rapid.IntRange(0, 15).Draw(t, "mut")
+	if gen.Rare(t, "hugefile", 11) {
+		mk = 16
+	}
+	switch mk {
 	case 0: // delete a field
 		i := pickLine()
 		f := strings.Fields(lines[i])
@@ -121,6 +125,10 @@ func mutateText(t *rapid.T, text string, m int64) string {
 		default:
 			lines[i] = strings.Repeat(" ", n) + lines[i]
 		}
+	case 16: // more than a megabyte of comment lines in the middle of the file
+		i := rapid.IntRange(0, len(lines)).Draw(t, "at")
+		pad := strings.Repeat(";"+strings.Repeat("c", 62)+"\n", rapid.SampledFrom([]int{16385, 17000, 40000}).Draw(t, "padlines"))
+		lines = append(lines[:i], append([]string{strings.TrimSuffix(pad, "\n")}, lines[i:]...)...)
 	case 15: // characters whose lower-case form has a different byte length, before a comment
 		i := pickLine()
 		k := rapid.IntRange(1, 6).Draw(t, "nshrink")
